@@ -40,7 +40,11 @@ def s_case(draw):
     d = draw(st.sampled_from([2, 2, 3]))
     shape = draw(objs.shape_case(d=d))
     t = draw(objs.transform_case(d=d))
-    c = {"shape": shape, "t": t, "batch": draw(st.sampled_from([None, None, 1, 3, "n", "n+5"]))}
+    c = {"shape": shape, "t": t, "batch": draw(st.sampled_from([None, None, 1, 3, "n", "n+5"])),
+         # integer-typed coordinates (pixel positions) are legal: "none", the whole shape, or only its landmark groups
+         "int_coords": draw(st.sampled_from(["none", "none", "none", "all", "landmarks"])),
+         "reparam": draw(st.sampled_from(["from_vector", "set_target", "pseudoinverse"])),
+         "reparam_w": draw(st.lists(gen.q(-0.25, 0.25), min_size=16, max_size=16))}
     if t["kind"] in ("CachedPWA", "PythonPWA"):
         c["picks"] = draw(objs.bary_picks(40, 40))
     return c
@@ -72,6 +76,21 @@ def ref_eval(tc, t_built, x):
     return None
 
 
+def _build_shape_int(case):
+    """objs.build_shape, with the coordinates of marked (sub)shapes rounded and stored as int64."""
+    lms = case.get("lms", [])
+    base = dict(case)
+    base["lms"] = []
+    if case.get("int"):
+        base["pts"] = [[float(round(v)) for v in row] for row in case["pts"]]
+    s = objs.build_shape(base)
+    if case.get("int"):
+        s.points = np.array(base["pts"]).astype(np.int64)
+    for nm, sub in lms:
+        s.landmarks[nm] = _build_shape_int(sub)
+    return s
+
+
 def c_case(c, ctx):
     tc = c["t"]
     sc = c["shape"]
@@ -94,7 +113,19 @@ def c_case(c, ctx):
             return case
 
         sc = relocate(sc)
-    shape = objs.build_shape(sc)
+    ic = c.get("int_coords", "none")
+    if ic != "none" and tc["kind"] not in ("CachedPWA", "PythonPWA"):
+        def to_int(case, top):
+            case = dict(case)
+            if top and "lms" in case:
+                case["lms"] = [[nm, to_int(sub, False)] for nm, sub in case["lms"]]
+            if (not top) or ic == "all":
+                case["int"] = True
+            return case
+
+        sc = to_int(sc, True)
+    shape = _build_shape_int(sc)
+    ctx.event("int_coords=%s" % ic)
     n = shape.n_points
     bs = c["batch"]
     bs = {"n": n, "n+5": n + 5}.get(bs, bs)
@@ -162,8 +193,45 @@ def c_case(c, ctx):
     # nothing mutated, nothing shared
     dd = digest.digest_diff(d_shape, digest.digest(shape))
     ctx.expect(dd is None, "input_shape_mutated", lambda: repr(dd))
-    dd = digest.digest_diff(d_t, digest.digest(t, skip=_CACHE))
+    dd = digest.parameter_mutation(d_t, digest.digest(t, skip=_CACHE))
     ctx.expect(dd is None, "transform_mutated", lambda: repr(dd))
+
+    # after a re-parametrisation of a transform that has already been applied, "points are the transformed points"
+    # still has to hold: the map is the one of the NEW parameters (reference: explicit product with the new h_matrix)
+    if tc["kind"] in objs.HOMOG_KINDS:
+        how = c.get("reparam", "from_vector")
+        t2 = None
+        try:
+            if how == "from_vector":
+                v = t.as_vector()
+                w = np.array(c["reparam_w"][: v.shape[0]] + [0.0] * max(0, v.shape[0] - 16))
+                if tc["kind"] in ("Rotation", "AlignmentRotation"):
+                    q2 = v + w
+                    v2 = q2 / np.linalg.norm(q2)
+                elif tc["kind"] in ("UniformScale", "NonUniformScale", "AlignmentUniformScale"):
+                    v2 = v * (1.5 + w)
+                else:
+                    v2 = v + w
+                t2 = t.from_vector(v2)
+            elif how == "set_target" and tc["kind"] in objs.ALIGN_KINDS:
+                t2 = t.copy()
+                newt = gen.arr(tc["tgt"])[::-1] * 1.25 + 0.5
+                from menpo.shape import PointCloud as _PC
+
+                t2.set_target(_PC(newt))
+            elif how == "pseudoinverse":
+                t2 = t.pseudoinverse()
+        except NotImplementedError:
+            t2 = None  # not vectorizable in this dimension (documented)
+        if t2 is not None:
+            ctx.event("reparam=%s" % how)
+            x = bare0.copy()
+            got = t2.apply(x)
+            want = objs.ref_apply_h(t2.h_matrix.copy(), x)
+            sc2 = 1.0 + float(np.abs(want).max())
+            if np.all(np.isfinite(want)) and sc2 < 1e6:
+                ctx.expect(close(got, want, rtol=0, atol=1e-9 * sc2), "apply_after_reparametrisation_uses_stale_state." + how,
+                           lambda: "%s: apply disagrees with the transform's own h_matrix\n%s" % (tc["kind"], describe(got, want)))
     ctx.expect(np.array_equal(bare, shape.points), "input_points_mutated", "")
     sh = digest.shared_buffers(shape, r)
     ctx.expect(not sh, "result_shares_buffer_with_input", lambda: repr(sh[:4]))
